@@ -185,7 +185,7 @@ fn read_uint_total() {
     let r = read_uint(&b[..len], size);
     // short data is an error; a size wider than usize cannot be represented (an error, not a shift overflow: defect D13)
     assert!(r.is_err() == (len < size || size > core::mem::size_of::<usize>()));
-    kani::cover!(r.is_ok() && size == 12);
+    kani::cover!(r.is_ok() && size == 8);
     kani::cover!(r.is_err());
 }
 
